@@ -298,6 +298,63 @@ def gen(rng, knobs=None):
     return dict(files=files, muse=sorted(muse), nm=nm, strict=strict)
 
 
+def force_shadowing(rng, proj, name=None):
+    """Make module m0 a module that FORD could mistake for a foreign one and make sure it is used:
+    m1 uses it (module level and in one procedure), a program uses it, both call one of its public
+    procedures.  With [name] (mpi, omp_lib, ...: names FORD also knows as intrinsic / third-party modules)
+    m0 is renamed to it everywhere; without, the caller passes an extra_mods entry called m0.  A plain
+    `use <name>` denotes the project's own module (Fortran: a non-intrinsic module of that name is found
+    first; FORD: project modules come before external ones)."""
+    units = [u for f in proj["files"] for u in f]
+    mods = {u["name"]: u for u in units if u["kind"] == "module"}
+    m0, m1 = mods["m0"], mods["m1"]
+
+    def new_proc(n):
+        return dict(name=n, func=False, calls=[], internals=[], this=None, uses=[], meta=[], obj_calls=[],
+                    public=True)
+    target = next((p for p in m0["procs"] if p["public"] and p["this"] is None and not p["func"]), None)
+    if target is None:
+        target = new_proc("p900")
+        m0["procs"].append(target)
+        if m0["private"]:
+            m0["public"].append(target["name"])
+    if "m0" not in m1["uses"]:
+        m1["uses"] = sorted(m1["uses"] + ["m0"])
+    if not m1["procs"]:
+        m1["procs"].append(new_proc("p901"))
+        if m1["private"]:
+            m1["public"].append("p901")
+    caller = m1["procs"][0]
+    if target["name"] not in caller["calls"]:
+        caller["calls"].append(target["name"])
+    if "m0" not in caller["uses"]:
+        caller["uses"].append("m0")
+    prog = next((u for u in units if u["kind"] == "program"), None)
+    if prog is None:
+        prog = dict(kind="program", name="prog9", uses=[], calls=[], internals=[], meta=[], ext_uses=[])
+        proj["files"][0].append(prog)
+        units.append(prog)
+    if "m0" not in prog["uses"]:
+        prog["uses"] = sorted(prog["uses"] + ["m0"])
+    if target["name"] not in prog["calls"]:
+        prog["calls"].append(target["name"])
+    if name:
+        def ren(xs):
+            return [name if x == "m0" else x for x in xs]
+        for u in units:
+            if u["kind"] == "module":
+                u["ext_uses"] = [x for x in u["ext_uses"] if x != name]
+                for p in u["procs"]:
+                    p["uses"] = [x for x in ren(p["uses"]) if not (x == name and u["name"] == "m0")]
+            if "uses" in u:
+                u["uses"] = ren(u["uses"])
+            if u.get("ancestor") == "m0":
+                u["ancestor"] = name
+        m0["name"] = name
+    proj["shadow"] = name or "m0"
+    return proj
+
+
 # ------------------------------------------------------------------ the relation the source declares
 def declared(proj, st=None):
     """For a strict project: the relation written in the generated text, independent of FORD.
